@@ -67,6 +67,8 @@ OTHER = [
 
 
 class ExitSpace(spaces.Space):
+    SINGLE_DELETION = False
+
     def __init__(self, tier):
         self.name = f"exit-{tier}"
         lists = [()]
